@@ -103,7 +103,7 @@ PROPS['C05'] = dict(
 )
 PROPS['C06'] = dict(
     title='pass-through',
-    units=['arms'],
+    units=['arms', 'pt'],
     shims=['A-glue', 'A-str'],
     design='DESIGN.md 3/C06',
     technique='contract-based deductive verification (Verus) of the directive-free emission arms (copy exactly the bytes of their own leaf, identity origin) plus once-only obligations',
